@@ -1,6 +1,7 @@
 package main
 
 import (
+	"github.com/cloudspannerecosystem/memefish/char"
 	"fmt"
 	"os"
 	"reflect"
@@ -193,6 +194,11 @@ func canonSig(sig []sigTok) []sigTok {
 			continue // trailing / optional commas: commas carry no information beyond the element boundary
 		case t.kind == "<>":
 			t = sigTok{"!=", ""}
+		case t.kind == ">>":
+			// white space and comments are canonicalised away: "> >" closing two type brackets and ">>" are the same text;
+			// the lexer splits them differently, so compare both as two '>' (a shift operator is split on both sides alike)
+			out = append(out, sigTok{">", ""})
+			t = sigTok{">", ""}
 		case t.kind == "FROM" && len(out) > 0 && out[len(out)-1].kind == "<ident>" && strings.EqualFold(out[len(out)-1].val, "DELETE"):
 			continue
 		case t.kind == "<ident>" && pseudoKeywords[strings.ToUpper(t.val)]:
@@ -946,6 +952,15 @@ func findingTags(e *entryPoint, x string) string {
 			for _, t := range n.Tokens {
 				if t.Raw == "" && len(t.Comments) > 0 {
 					add("bad-unterminated-comment")
+				}
+			}
+			// the last skipped token is a number glued to an identifier character that lies OUTSIDE the node (a stop keyword
+			// such as THEN / FROM / AS follows without a space): the recovery lexer calls the number <bad> because of that next byte
+			if k := len(n.Tokens); k > 0 {
+				t := n.Tokens[k-1]
+				if t.Kind == token.TokenBad && t.Raw != "" && (t.Raw[0] == '.' || (t.Raw[0] >= '0' && t.Raw[0] <= '9')) &&
+					int(t.End) < len(x) && char.IsIdentPart(x[t.End]) {
+					add("bad-glued-number-at-end")
 				}
 			}
 		}
